@@ -105,8 +105,9 @@ let () =
      while true do
        let line = input_line ic in
        let toks = String.split_on_char ' ' line |> List.filter (fun s -> s <> "" && s.[0] <> '#') in
-       let (m, sp) = run_case toks in
-       print_obs oc m; print_obs os sp
+       (match toks with
+        | "DMXQ" :: _ -> output_string oc "SKIP\n"; output_string os "SKIP\n"
+        | _ -> let (m, sp) = run_case toks in print_obs oc m; print_obs os sp)
      done
    with End_of_file -> ());
   close_out oc; close_out os
